@@ -1,5 +1,6 @@
 import JoblibProofs.Lemmas.StoreWitness
 import JoblibModel.StoreIO
+import JoblibModel.StoreObjects
 /-!
 # C11 — concurrent users of one cache directory always get correct values
 
@@ -280,5 +281,50 @@ example : CfgOK πW 0 cfgW := cfgW_ok
 example : Inv πW true FS.empty := inv_empty _ _
 example : (run (callProc cfgW 3) FS.empty).1 = .ok ⟨0, 3, 0⟩ := by decide
 example : (run (callProc cfgW 3) (run (callProc { cfgW with me := 1 } 3) FS.empty).2).1 = .ok ⟨0, 3, 0⟩ := by decide
+
+
+/-! ## Object histories (`JoblibModel.StoreObjects`): users that live on, others clear / evict between their operations -/
+section Objects
+open JoblibModel.StoreObjects
+
+/-- the witness history: object A (process 0) is created and calls `f 3`, `f 4`; object B of ANOTHER process is created
+and clears the cache; A calls `f 5` (new), `f 3` (cleared), `f 3` (cached again) — then the same with B evicting. -/
+def histW (disturb : Step) : List Step :=
+  [.new 0 cfgW, .call 0 0 cfgW 3, .call 0 0 cfgW 4, .new 1 { cfgW with me := 1 }, disturb,
+   .call 0 0 cfgW 5, .call 0 0 cfgW 3, .call 0 0 cfgW 3]
+
+theorem prog_bind_assoc {α β γ : Type} (p : Prog α) (f : α → Prog β) (h : β → Prog γ) :
+    (p.bind f).bind h = p.bind fun x => (f x).bind h := by
+  induction p with
+  | ret a => rfl
+  | raise e => rfl
+  | op o k ih => simp only [Prog.bind]; congr 1; funext r; exact ih r
+
+/-- A process that does not know the function object takes the decisions of the fresh user of `Store` (the in-memory
+shortcut is the only difference between an object that lives on and a fresh one). -/
+theorem checkPreviousObj_fresh (c : Cfg) (m : ProcMem) (g : Nat) (hk : m.knows g = false) (hl : c.legacy = false) :
+    ((checkPreviousObj c m g).bind fun r => Prog.ret r.1) = checkPrevious c := by
+  unfold checkPreviousObj checkPrevious
+  simp only [hk, hl, Bool.false_eq_true, if_false]
+  simp only [Prog.bind]
+  congr 1; funext r
+  cases r <;> simp only [Prog.bind] <;> try (congr 1; funext r; cases r <;> simp only [Prog.bind])
+  all_goals first | (simp only [prog_bind_assoc, Prog.bind]; done) | (cases c.codec.checkCode c.ver ‹Bytes› <;> simp only [prog_bind_assoc, Prog.bind]; done)
+
+/-- Witness (concrete history, evaluated): after ANOTHER object — of another process, so that nothing this process
+remembers is reset — cleared the cache, cleared the function, evicted everything or evicted one entry, every call of
+the first object still returns `f x`, recomputing exactly what was removed. -/
+theorem object_history_witness :
+    (history [] FS.empty (histW (.clear 1 { cfgW with me := 1 }))).drop 5
+      = [.value ⟨0, 5, 0⟩ true, .value ⟨0, 3, 0⟩ true, .value ⟨0, 3, 0⟩ false] ∧
+    (history [] FS.empty (histW (.fclear 1 1 { cfgW with me := 1 }))).drop 5
+      = [.value ⟨0, 5, 0⟩ true, .value ⟨0, 3, 0⟩ true, .value ⟨0, 3, 0⟩ false] ∧
+    (history [] FS.empty (histW (.reduce 1 { cfgW with me := 1 } [4, 3]))).drop 5
+      = [.value ⟨0, 5, 0⟩ true, .value ⟨0, 3, 0⟩ true, .value ⟨0, 3, 0⟩ false] ∧
+    (history [] FS.empty (histW (.iclear 1 { cfgW with me := 1 } 3))).drop 5
+      = [.value ⟨0, 5, 0⟩ true, .value ⟨0, 3, 0⟩ true, .value ⟨0, 3, 0⟩ false] := by
+  decide
+
+end Objects
 
 end C11
